@@ -128,6 +128,13 @@ def presentations(inst):
   if idx % 3 != 2:
     out.append({'name': 'custom', 'shuffle': 2 if idx % 2 else None, 'custom': True,
                 'memo': True, 'labels': idx % 4, 'explicit_target': idx % 2 == 0})
+  if idx % 4 == 2:
+    # label columns held as pandas Categoricals (what read_csv(dtype='category') or a groupby pipeline leaves behind)
+    out.append({'name': 'categorical', 'shuffle': 5 if idx % 8 == 2 else None, 'custom': False, 'memo': True,
+                'categorical': True})
+  if idx % 4 == 0:
+    # a second metric column in the frame, named as key_response, while `target` names the analysed one
+    out.append({'name': 'two_metrics', 'shuffle': None, 'custom': False, 'memo': True, 'two_metrics': True})
   if idx % 2 == 1:
     # a frame whose index labels repeat (e.g. the concatenation of per-period frames without ignore_index)
     out.append({'name': 'dup_index', 'shuffle': 3 if idx % 4 == 1 else None, 'custom': False, 'memo': True,
@@ -197,6 +204,12 @@ def build(inst, pres):
     frame = pd.DataFrame(cols, columns=order)
   if pres.get('dup_index'):
     frame.index = [k % max(2, nd // 3) for k in range(len(frame))]
+  if pres.get('categorical'):
+    frame[names['period']] = frame[names['period']].astype('category')
+    frame[names['group']] = frame[names['group']].astype('category')
+  if pres.get('two_metrics'):
+    frame['revenue'] = [float((k * 37) % 101) for k in range(len(frame))]
+    kwargs.update({'target': names['response'], 'key_response': 'revenue'})
   rows = [{'id': g * nd + d + 1, 'geo': g + 1, 'grp': inst['groups'][g], 'date': d + 1,
            'period': inst['periods'][d], 'value': int(inst['vals'][g][d])} for g, d in cells]
   maps = {'names': names,
